@@ -1026,5 +1026,155 @@ func TestVerifC12(t *testing.T) {
 			reuse.Record(idx, obs, 2, func() string { return fmt.Sprintf("modernFirst=%v op=%s", modernFirst, op) })
 		}
 	}
+	// ---- the size limit as the handler's constructor resolves it: every way of not naming a limit
+	// yields the documented default (4 MiB), a positive value is taken as given, a negative one
+	// disables the guard.  Bodies just under, at and just over the limit, with a known length and
+	// chunked, as initialize and as a tool call of an established session.
+	limits := env.NewCases(res, "body-limit-by-construction")
+	type optShape struct {
+		name  string
+		opts  func() *StreamableHTTPOptions
+		limit int64 // -1: none
+	}
+	shapes := []optShape{
+		{"nil options", func() *StreamableHTTPOptions { return nil }, DefaultMaxRequestBodyBytes},
+		{"zero options", func() *StreamableHTTPOptions { return &StreamableHTTPOptions{} }, DefaultMaxRequestBodyBytes},
+		{"other options set, limit zero", func() *StreamableHTTPOptions {
+			return &StreamableHTTPOptions{Logger: quietLogger, JSONResponse: true, SessionTimeout: time.Hour}
+		}, DefaultMaxRequestBodyBytes},
+		{"stateless, limit zero", func() *StreamableHTTPOptions { return &StreamableHTTPOptions{Stateless: true, Logger: quietLogger} }, DefaultMaxRequestBodyBytes},
+		{"limit 2000", func() *StreamableHTTPOptions {
+			return &StreamableHTTPOptions{MaxRequestBodyBytes: 2000, Logger: quietLogger}
+		}, 2000},
+		{"limit 1", func() *StreamableHTTPOptions {
+			return &StreamableHTTPOptions{MaxRequestBodyBytes: 1, Logger: quietLogger}
+		}, 1},
+		{"limit -1 (disabled)", func() *StreamableHTTPOptions {
+			return &StreamableHTTPOptions{MaxRequestBodyBytes: -1, Logger: quietLogger}
+		}, -1},
+	}
+	for _, sh := range shapes {
+		for _, delta := range []int64{-1, 0, 1, 4096} {
+			for _, chunked := range []bool{false, true} {
+				for _, what := range []string{"initialize", "tools/call"} {
+					idx, mine := limits.Next()
+					if !mine {
+						continue
+					}
+					desc := fmt.Sprintf("%s, body of limit%+d bytes, chunked=%v, %s", sh.name, delta, chunked, what)
+					var obs, sig, msg string
+					func() {
+						defer func() {
+							if r := recover(); r != nil && sig == "" {
+								sig, msg = "c12 body-limit panic-or-leak", fmt.Sprintf("%v [%s]", r, desc)
+							}
+						}()
+						synctest.Test(t, func(t *testing.T) {
+							ran := 0
+							s := NewServer(&Implementation{Name: "srv", Version: "1"}, &ServerOptions{Logger: quietLogger})
+							AddTool(s, &Tool{Name: "t"}, func(ctx context.Context, r *CallToolRequest, in map[string]any) (*CallToolResult, any, error) {
+								ran++
+								return &CallToolResult{}, nil, nil
+							})
+							opts := sh.opts()
+							stateless := opts != nil && opts.Stateless
+							h := NewStreamableHTTPHandler(func(*http.Request) *Server { return s }, opts)
+							defer func() {
+								for ss := range s.Sessions() {
+									ss.Close()
+								}
+							}()
+							post := func(sid, body string, chunk bool) *httptest.ResponseRecorder {
+								r := httptest.NewRequest("POST", "http://127.0.0.1/mcp", strings.NewReader(body))
+								if chunk {
+									r.ContentLength = -1
+									r.TransferEncoding = []string{"chunked"}
+								}
+								r.Header.Set("Content-Type", "application/json")
+								r.Header.Set("Accept", "application/json, text/event-stream")
+								if sid != "" {
+									r.Header.Set("Mcp-Session-Id", sid)
+								}
+								r.Header.Set("Mcp-Protocol-Version", "2025-06-18")
+								w := httptest.NewRecorder()
+								done := make(chan struct{})
+								go func() { defer close(done); h.ServeHTTP(w, r) }()
+								synctest.Wait()
+								select {
+								case <-done:
+								default:
+									w.Code = -1
+								}
+								return w
+							}
+							limit := sh.limit
+							size := limit + delta
+							if limit < 0 {
+								size = DefaultMaxRequestBodyBytes + delta + 1
+							}
+							pad := func(prefix, suffix string) string {
+								n := int(size) - len(prefix) - len(suffix)
+								if n < 0 {
+									return ""
+								}
+								return prefix + strings.Repeat("x", n) + suffix
+							}
+							const initBody = `{"jsonrpc":"2.0","id":1,"method":"initialize","params":{"protocolVersion":"2025-06-18","capabilities":{},"clientInfo":{"name":"c","version":"1"}}}`
+							sid := ""
+							var w *httptest.ResponseRecorder
+							if what == "initialize" {
+								body := pad(`{"jsonrpc":"2.0","id":1,"method":"initialize","params":{"protocolVersion":"2025-06-18","capabilities":{},"clientInfo":{"name":"`, `","version":"1"}}}`)
+								if body == "" {
+									obs = "not-applicable"
+									return
+								}
+								w = post("", body, chunked)
+							} else {
+								if !stateless {
+									if limit >= 0 && int64(len(initBody)) > limit {
+										obs = "not-applicable"
+										return
+									}
+									wi := post("", initBody, false)
+									sid = wi.Header().Get("Mcp-Session-Id")
+									if wi.Code != 200 || sid == "" {
+										sig, msg = "c12 body-limit setup", fmt.Sprintf("initialize answered %d [%s]", wi.Code, desc)
+										return
+									}
+									post(sid, `{"jsonrpc":"2.0","method":"notifications/initialized","params":{}}`, false)
+								}
+								body := pad(`{"jsonrpc":"2.0","id":2,"method":"tools/call","params":{"name":"t","arguments":{"blob":"`, `"}}}`)
+								if body == "" {
+									obs = "not-applicable"
+									return
+								}
+								w = post(sid, body, chunked)
+							}
+							over := limit >= 0 && size > limit
+							switch {
+							case over && w.Code != http.StatusRequestEntityTooLarge:
+								sig, msg = fmt.Sprintf("c12 body-limit oversize-admitted got %d", w.Code), fmt.Sprintf("a body of %d bytes (limit %d) was answered %d, want 413 [%s]", size, limit, w.Code, desc)
+							case over && ran != 0:
+								sig, msg = "c12 body-limit oversize-reached-handler", fmt.Sprintf("a body of %d bytes (limit %d) reached the tool handler [%s]", size, limit, desc)
+							case !over && w.Code == http.StatusRequestEntityTooLarge:
+								sig, msg = "c12 body-limit conforming-refused", fmt.Sprintf("a body of %d bytes (limit %d) was refused with 413 [%s]", size, limit, desc)
+							case !over && w.Code != 200:
+								sig, msg = fmt.Sprintf("c12 body-limit conforming-refused got %d", w.Code), fmt.Sprintf("a body of %d bytes (limit %d) was answered %d %.200q [%s]", size, limit, w.Code, w.Body.String(), desc)
+							case !over && what == "tools/call" && ran != 1:
+								sig, msg = "c12 body-limit conforming-not-dispatched", fmt.Sprintf("a body of %d bytes (limit %d): the tool ran %d times [%s]", size, limit, ran, desc)
+							default:
+								obs = fmt.Sprintf("over=%v status=%d", over, w.Code)
+							}
+						})
+					}()
+					if sig != "" {
+						limits.Violate(idx, sig, msg, 2)
+						continue
+					}
+					limits.Record(idx, obs, 2, func() string { return desc })
+				}
+			}
+		}
+	}
 	env.Finish(res)
 }
